@@ -43,6 +43,45 @@ DESC = {
  "C19-rolling-iter-sizehint-upper": ("`update_by_iter` skips ahead by the size hint's upper bound", "missed at first: only exact-size iterators were fed; filter-style iterators with inexact hints added (C19, C03)"),
  "C20-cap-min-lhs": ("score cap uses the left length twice", ""),
  "C20-is-valid-modinv": ("`is_valid` via the modular inverse of 3 (accepts 2^31)", ""),
+ # ---- round 2 (authors were told which ideas already existed and asked for different ones)
+ "C01-reset_keeps_size_limit": ("`reset()` keeps the fork limit of an earlier declared size", "missed at first: C01's reused generators had no declared size; a second kind of reused generator (earlier input digested under a small declared size) added to C01 and C13"),
+ "C01-half_char_wrong_level": ("truncated block hash 2 takes its last character from the wrong level when the rolling hash is 0", ""),
+ "C02-cap-fastpath-self-len": ("score cap skipped when the left block hash alone is long enough", ""),
+ "C02-neareq-nocap-border": ("no-cap shortcut off by one at block size 24", ""),
+ "C03-iter-size-hint-upper": ("`update_by_iter` adds the size hint's upper bound to the input size", ""),
+ "C03-sparse-clone-roll-mask": ("hand-written `Clone` omits `roll_mask`", "first reported as exit 4 (violation did not replay): the replay did not clone after every call as the explored model does, and a Debug-equality assertion on zero-length calls demanded more than the property; replay now clones at every step and the assertion was removed"),
+ "C04-bs-wrap-check": ("block size accumulator wraps (7516192768 parses as 3221225472)", "spellings 'valid size + k*2^32 / + 2^64' were added to the corpus after reading the author's report and before the first run"),
+ "C04-dual-raw-extra-last-run": ("dual parser counts only the last long run's removed characters", ""),
+ "C05-fromstr-strips-eol": ("`FromStr` strips trailing CR / LF", "missed at first: no line terminators among tails / edit bytes, and accepted texts were only re-parsed through from_bytes; LF, CRLF, blank, tab tails, LF / CR / blank / '=' edit bytes and the str::parse route added"),
+ "C06-lookbehind-index-slip": ("in-place normalizer's look-behind skips one position (`c?cc` loses a character)", ""),
+ "C06-parser-sentinel-collision": ("parser's 'no previous character' marker collides with symbol 61 (leading `999`)", "missed at first: runs only used symbols 0, 63, 27; runs of every one of the 64 symbols added to the text corpus and the block-hash families"),
+ "C07-compress-tail-clear-by-input-len": ("dual compression clears the tail only up to the input length", ""),
+ "C08-init-from-empty-stale": ("position array `init_from(&[])` keeps the old bits (two cooperating sites)", "missed at first: C08 built a fresh position array per string; it now re-uses one (emptied every third time) and compares a fifth with fresh ones"),
+ "C08-rowmask-wrapping-shl": ("row mask built with `wrapping_shl(len)` (wrong for 64-symbol strings)", ""),
+ "C09-head-window-dropped": ("scan never examines the first window of the other string", ""),
+ "C09-stale-right-border": ("right border of the scan window kept across skips (false positives)", ""),
+ "C10-cap_self_len": ("score cap computed from the left length only (asymmetric scores)", ""),
+ "C10-target_reinit_bh1": ("`init_from` clears block hash 2 twice (re-used target invents matches)", "missed at first: C10 compared through fresh targets only; the pair laws now use re-used targets"),
+ "C11-dual-rle-terminator": ("single RLE terminator instead of a filled tail", ""),
+ "C11-target-init-skip-clear": ("target `init_from` skips the clear depending on an already overwritten length", ""),
+ "C12-hint-limit-unclamped": ("fork limit not clamped for declared sizes above 96 GiB (index out of bounds)", ""),
+ "C12-reset-early-out": ("`reset()` returns early when no byte was fed (declaration survives)", ""),
+ "C13-fixed-limit-before-check": ("fork limit assigned before the mismatch check of a second declaration", "missed at first: C13 never attempted a second declaration; after an accepted hint a much smaller one is now attempted and must be refused without effect"),
+ "C13-fixed-limit-unclamped": ("fork limit not clamped (panic above 96 GiB)", ""),
+ "C14-raw-init-tail-release": ("`init_from_internals_raw` no longer asserts a clean tail (debug builds still panic)", "missed at first: the transcript had no out-of-contract constructor calls; a `constructors` section (panic or object, per configuration) added"),
+ "C14-unchecked-near-eq": ("`compare_near_eq_unchecked` forwards to the unequal variant", ""),
+ "C15-dual-expand-fastpath-tail": ("dual expansion fast path skips the zero fill", ""),
+ "C15-widen-stale-upper-half": ("`into_mut_long_form` clears depending on an overwritten length", ""),
+ "C16-dual-expand-fast-path": ("dual expansion into a dirty raw object leaves a stale tail (`==` but `cmp != Equal`)", "missed at first: no object of the corpus came out of a dual expansion into a dirty destination; added as a construction route"),
+ "C16-short-conv-partial-write": ("failed narrowing writes block hash 1 into the destination (`==` but `cmp != Equal`)", "missed at first: added 'a failed narrowing was attempted into the object' as a construction route"),
+ "C17-bh2-clear-wrong-axis": ("clear bounded by the position count instead of the alphabet size", ""),
+ "C17-stale-len-empty": ("empty block hash leaves the previous length (two cooperating sites)", ""),
+ "C18-fill-buffer-deferred-error": ("buffer-filling helper drops an error that arrives after some bytes", ""),
+ "C18-hash-file-bounded-read": ("`hash_file` reads through `take(metadata size)`", ""),
+ "C19-rh-array-h3-width": ("`+= &[u8; N]` specialisation rebuilds h3 from 6 instead of 7 bytes", "`+= &[u8; N]` for N = 2..16 was added after reading the author's report and before the first run (only N = 1 was fed before)"),
+ "C19-rh-iter-window-copy": ("`update_by_iter` works on a copy of the window and does not store it back", ""),
+ "C20-rawscore-reciprocal": ("raw score through a 16-bit reciprocal table (off by 1-2 for 0.8 % of the domain)", ""),
+ "C20-valid-lowest-bit-pair": ("`is_valid` through lowest-bit isolation (accepts 2^31)", ""),
 }
 rows = []
 for d in sorted(glob.glob(V + "/seeded/*/")):
